@@ -2,6 +2,7 @@ package main
 
 import (
 	"fmt"
+	"github.com/skx/evalfilter/v2/object"
 	"math/rand"
 	"reflect"
 
@@ -40,6 +41,7 @@ func c15Program(r *rand.Rand) gast.Program {
 		body = append(body, gast.Assign{Name: v, X: c15Lit(r)})
 	}
 	body = append(body, gast.Assign{Name: "arr", X: gast.ArrayLit{Els: []gast.Expr{id("v0"), c15Lit(r)}}})
+	body = append(body, gast.Assign{Name: "hsh", X: gast.HashLit{Keys: []gast.Expr{gast.StrLit{V: "p"}}, Vals: []gast.Expr{id("v1")}}})
 	mut := func(name string) gast.Stmt {
 		switch r.Intn(6) {
 		case 0:
@@ -54,7 +56,7 @@ func c15Program(r *rand.Rand) gast.Program {
 	var gen func(depth int) []gast.Stmt
 	gen = func(depth int) []gast.Stmt {
 		var out []gast.Stmt
-		switch r.Intn(13) {
+		switch r.Intn(14) {
 		case 0, 1:
 			out = append(out, gast.Assign{Name: pickV(), X: id(pickV())})
 		case 2:
@@ -92,6 +94,20 @@ func c15Program(r *rand.Rand) gast.Program {
 					gast.Assign{Name: "got", X: gast.Call{Fn: "bump", Args: []gast.Expr{id("p")}}}, gast.ExprStmt{X: gast.Call{Fn: "quiet", Args: []gast.Expr{id("p")}}},
 					gast.Assign{Name: "arr", X: gast.ArrayLit{Els: []gast.Expr{id("p"), id("got")}}}}})
 			}
+		case 12:
+			// a hash built from variables (as values, and read back through its keys) is a
+			// snapshot too; so is an operand that is already on the stack when a function
+			// called further right in the same expression changes the variable
+			switch r.Intn(3) {
+			case 0:
+				a, b := pickV(), pickV()
+				out = append(out, gast.Assign{Name: "hsh", X: gast.HashLit{Keys: []gast.Expr{gast.StrLit{V: "p"}, gast.StrLit{V: "q"}}, Vals: []gast.Expr{id(a), id(b)}}}, mut(a), mut(b))
+			case 1:
+				a := pickV()
+				out = append(out, gast.Assign{Name: "hsh", X: gast.HashLit{Keys: []gast.Expr{gast.StrLit{V: "p"}}, Vals: []gast.Expr{gast.ArrayLit{Els: []gast.Expr{id(a), c15Lit(r)}}}}}, mut(a))
+			default:
+				out = append(out, gast.Assign{Name: "v3", X: gast.IntLit{V: int64(10 + r.Intn(70000))}}, gast.Assign{Name: "arr", X: gast.ArrayLit{Els: []gast.Expr{id("v3"), gast.Infix{Op: "+", L: id("v3"), R: gast.Call{Fn: "bumpV3", Args: nil}}, id("v3")}}})
+			}
 		case 9:
 			// the field itself as target of a mutator (creates a variable of that name)
 			out = append(out, mut([]string{"FI", "FF"}[r.Intn(2)]))
@@ -106,7 +122,7 @@ func c15Program(r *rand.Rand) gast.Program {
 	// literal evaluated again
 	lit := c15Lit(r)
 	body = append(body, gast.Assign{Name: "again1", X: lit}, gast.IncDec{Name: "again1", Op: "++"}, gast.Assign{Name: "again2", X: lit})
-	body = append(body, gast.Return{X: gast.ArrayLit{Els: []gast.Expr{id("v0"), id("v1"), id("v2"), id("v3"), id("arr"), id("again1"), id("again2"), id("FI"), id("FF"), id("FS"), id("FB"), id("FBig")}}})
+	body = append(body, gast.Return{X: gast.ArrayLit{Els: []gast.Expr{id("v0"), id("v1"), id("v2"), id("v3"), id("arr"), id("hsh"), id("again1"), id("again2"), id("FI"), id("FF"), id("FS"), id("FB"), id("FBig")}}})
 	// functions working on local copies of a parameter, a global, a literal and an array element
 	viaLocal := gast.FuncDef{Name: "viaLocal", Params: []string{"p"}, Body: []gast.Stmt{
 		gast.Local{Name: "c"}, gast.Assign{Name: "c", X: id("p")}, mut("c"),
@@ -124,7 +140,8 @@ func c15Program(r *rand.Rand) gast.Program {
 		gast.Local{Name: "m"}, gast.Assign{Name: "m", X: gast.Call{Fn: "bump", Args: []gast.Expr{id("p")}}},
 		gast.ExprStmt{X: gast.Call{Fn: "quiet", Args: []gast.Expr{id("p")}}},
 		gast.Return{X: gast.ArrayLit{Els: []gast.Expr{id("p"), id("m")}}}}}
-	return gast.Program{Stmts: append([]gast.Stmt{bump, quiet, viaLocal, relay}, body...)}
+	bumpV3 := gast.FuncDef{Name: "bumpV3", Body: []gast.Stmt{gast.IncDec{Name: "v3", Op: "++"}, gast.OpAssign{Name: "v3", Op: "+", X: gast.IntLit{V: 2}}, gast.Return{X: gast.IntLit{V: 1}}}}
+	return gast.Program{Stmts: append([]gast.Stmt{bump, quiet, viaLocal, relay, bumpV3}, body...)}
 }
 
 func c15(c *ev.Ctx) {
@@ -155,6 +172,33 @@ func c15(c *ev.Ctx) {
 		}
 		c.SampleEvery(i, func() interface{} { return map[string]string{"script": script} })
 	})
+	// objects the host handed over with SetVariable stay as the host made them, whatever the
+	// script does to the variables
+	for vi, script := range []string{
+		`hostI++; hostI += 2; hostF--; hostF *= 3; c1 = hostI; c1++; return [hostI, hostF, c1];`,
+		`foreach e in hostA { e++; e += 1; } x = hostA[0]; x++; h = {"k": hostI}; hostI++; return [hostA, x, h];`,
+		`function f(p) { p++; p *= 2; return p; } r = f(hostI) + f(hostF); hostI--; return [r, hostI, hostA];`,
+	} {
+		id := fmt.Sprintf("host-variable-objects/%d", vi)
+		if !c.Want(id) {
+			continue
+		}
+		for _, noOpt := range []bool{false, true} {
+			hi, hf := &object.Integer{Value: 5}, &object.Float{Value: 2.5}
+			ha := &object.Array{Elements: []object.Object{&object.Integer{Value: 70000}, &object.Float{Value: 1.5}, &object.Integer{Value: 3}}}
+			evr, err := eng.New(script, eng.Options{NoOptimize: noOpt, ObjVars: map[string]object.Object{"hostI": hi, "hostF": hf, "hostA": ha}})
+			c.Case(id+fmt.Sprint(noOpt), true)
+			if err != nil {
+				continue
+			}
+			for run := 0; run < 3; run++ {
+				evr.Exec(nil)
+			}
+			if got := fmt.Sprintf("%v %v %s", hi.Value, hf.Value, eng.Describe(ha)); got != "5 2.5 ARRAY:[70000, 1.5, 3]" {
+				c.Violation(id, "the host's own objects changed", map[string]interface{}{"summary": fmt.Sprintf("%s (noopt=%v): the objects the host passed to SetVariable (5, 2.5, [70000, 1.5, 3]) now read %s", script, noOpt, got), "script": script})
+			}
+		}
+	}
 	// fixed clause-by-clause regressions
 	fixed := []struct{ name, script, want string }{
 		{"alias-after-increment", `a = 1; b = a; a++; return [a, b];`, "ARRAY:[2, 1]"},
